@@ -245,8 +245,9 @@ def addStatic (c : Cfg) (s : LH) (vpn : Addr) (addrs : List AP) : LH :=
   match s.getList id with
   | none => s
   | some rl =>
-    -- the resolved set is a Go map: duplicates collapse
-    let addrs := addrs.foldl (fun acc a => if acc.contains a then acc else acc ++ [a]) []
+    -- `NewHostnameResults` unmaps literal and resolved addresses alike (after the fix); the resolved set is a
+    -- Go map: duplicates collapse
+    let addrs := (addrs.map AP.out).foldl (fun acc a => if acc.contains a then acc else acc ++ [a]) []
     let rl := { rl with hr := some addrs }
     let rl := addrs.foldl (fun rl ap =>
       if !shouldAddAll c [vpn] ap.addr then rl
@@ -268,5 +269,111 @@ def learnRemote (s : LH) (vpns : List Addr) (remote : AP) : LH :=
   match s.getList id with
   | none => s
   | some rl => s.setList id (learn rl (vpns.headD ⟨.v4, 0⟩) remote)
+
+
+/-! ### the learned-address gate (outside.go, handshake_manager.go, hostmap.go `SetRemote`) -/
+
+/-- `ViaSender`: the underlay source of a packet (already unmapped by the udp listener) and whether it
+arrived through a relay. -/
+structure Via where
+  udp : AP
+  relayed : Bool
+  deriving Repr, DecidableEq
+
+/-- `readOutsidePackets`: "Refusing to process double encrypted packet" — a non-relayed packet whose source
+lies inside my overlay networks is dropped before any handshake / roaming processing. -/
+def outsideAdmits (c : Cfg) (via : Via) : Bool :=
+  if !via.relayed then (if inMyNets c via.udp.addr then false else true) else true
+
+/-- which packet path is about to call `HostInfo.SetRemote`. -/
+inductive LearnKind where
+  /-- responder: `HandleIncoming` (AllowUnknownVpnAddr) → `beginHandshake` (AllowAll on the certificate's
+  addresses) → `SetRemote` / `SetRemoteIfPreferred` -/
+  | stage1
+  /-- initiator: `HandleIncoming` (AllowUnknownVpnAddr) → `continueHandshake` (AllowAll on the pending
+  hostinfo's addresses) → `SetRemote` -/
+  | stage2
+  /-- established tunnel: `handleHostRoaming` (AllowAll, roam-back suppression) → `SetRemote` -/
+  | roam
+  deriving Repr, DecidableEq
+
+/-- The remote the packet path hands to `SetRemote` (`none`: it does not get there). `vpnAddrs` are the
+peer's authenticated overlay addresses, `cur` the hostinfo's current remote, `suppressed` the outcome of the
+time-based checks that can only prevent the call (roam-back suppression, "already on a preferred remote"). -/
+def learnGate (c : Cfg) (k : LearnKind) (vpnAddrs : List Addr) (cur : Option AP) (via : Via) (suppressed : Bool) :
+    Option AP :=
+  if !outsideAdmits c via then none else
+  match k with
+  | .stage1 | .stage2 =>
+    if !via.relayed then
+      if !c.ral.allowUnknownVpnAddr via.udp.addr then none
+      else if !c.ral.allowAll vpnAddrs via.udp.addr then none
+      else if suppressed then none else some via.udp
+    else none
+  | .roam =>
+    if !via.relayed && decide (cur ≠ some via.udp) then
+      if !c.ral.allowAll vpnAddrs via.udp.addr then none
+      else if suppressed then none else some via.udp
+    else none
+
+/-- `QueryCache(vpnAddrs)`: makes sure the peer has a remote list (a hostinfo gets its `remotes` this way). -/
+def queryCache (s : LH) (vpnAddrs : List Addr) : LH :=
+  match s.lookup (vpnAddrs.headD ⟨.v4, 0⟩) with
+  | some _ => s
+  | none => (getRemoteList s vpnAddrs).1
+
+/-- `SetRemote` (learns only when the remote changes) on the list `QueryCache(vpnAddrs)` returns. -/
+def learnEvent (c : Cfg) (s : LH) (k : LearnKind) (vpnAddrs : List Addr) (cur : Option AP) (via : Via)
+    (suppressed : Bool) : LH :=
+  match learnGate c k vpnAddrs cur via suppressed with
+  | none => s
+  | some r => if cur = some r then s else learnRemote s vpnAddrs r
+
+/-- `addCalculatedRemotes(vpnAddr)` given what `ApplyV4/ApplyV6` computed (C48). -/
+def addCalculated (c : Cfg) (s : LH) (vpn : Addr) (calc4 calc6 : List AP) : LH :=
+  let (s, id) := getRemoteList s [vpn]
+  match s.getList id with
+  | none => s
+  | some rl =>
+    let rl := if calc4.isEmpty then rl else setV4 rl c.me calc4 (fun u => shouldAddOne c vpn u)
+    let rl := if calc6.isEmpty then rl else setV6 rl c.me calc6 (fun u => shouldAddOne c vpn u)
+    s.setList id rl
+
+/-- apply a RemoteList operation to the list with the given id (no such list: nothing happens). -/
+def onList (s : LH) (id : Nat) (f : RL → RL) : LH :=
+  match s.getList id with
+  | none => s
+  | some rl => s.setList id (f rl)
+
+/-- everything that can happen to the lighthouse cache of a node. -/
+inductive Ev where
+  | msg (from_ : List Addr) (m : Msg)                       -- HandleRequest
+  | static (vpn : Addr) (addrs : List AP)                    -- addStaticRemotes (load / reload)
+  | resetOwner (id : Nat)                                    -- reload: ResetForOwner(myself)
+  | clearDNS (id : Nat)                                      -- reload: ClearHostnameResults
+  | dns (id : Nat) (ips : List AP)                           -- resolver found a different set
+  | calcRemotes (vpn : Addr) (calc4 calc6 : List AP)              -- addCalculatedRemotes
+  | learn (k : LearnKind) (vpnAddrs : List Addr) (cur : Option AP) (via : Via) (suppressed : Bool)
+  | block (id : Nat) (a : AP) (relayed : Bool)               -- BlockRemote
+  | unblock (id : Nat)                                       -- ResetBlockedRemotes
+  | refresh (id : Nat) (vpnAddrs : List Addr)                -- RefreshFromHandshake
+  | delete (vpnAddrs : List Addr)                            -- DeleteVpnAddrs
+  | read (id : Nat) (pref : List Prefix)                     -- CopyAddrs / ForEach / Len
+  | query (vpnAddrs : List Addr)                             -- QueryCache
+
+def applyEv (c : Cfg) (s : LH) : Ev → LH
+  | .msg f m => (handleRequest c s f m).1
+  | .static vpn addrs => addStatic c s vpn addrs
+  | .resetOwner id => onList s id (fun rl => resetForOwner rl c.me)
+  | .clearDNS id => onList s id clearHostnameResults
+  | .dns id ips => onList s id (fun rl => setDNS rl ips)
+  | .calcRemotes vpn c4 c6 => addCalculated c s vpn c4 c6
+  | .learn k vs cur via sup => learnEvent c s k vs cur via sup
+  | .block id a rel => onList s id (fun rl => blockRemote rl a rel)
+  | .unblock id => onList s id resetBlockedRemotes
+  | .refresh id vs => onList s id (fun rl => refreshFromHandshake rl vs)
+  | .delete vs => deleteVpnAddrs c s vs
+  | .read id pref => onList s id (fun rl => rebuild rl (some (shouldAddAll c)) pref)
+  | .query vs => queryCache s vs
 
 end Nebula.Lighthouse
